@@ -277,4 +277,43 @@ PROPS = {
                  "string.to_int / string.length cases); distinct by hash of (request rules, buffer, partition)."),
         "assumptions": ["math.mode may return any most-frequent byte", "an offset equal to the buffer size lies outside the buffer (undefined)"],
     },
+    "C06": {
+        "src": "c06", "engine": "fuzz", "engine_name": "libfuzzer-runner", "level": "exploration", "leaks": True,
+        "variants": ["fz"],
+        "technique": "coverage-guided fuzzing (libFuzzer, fork mode) with a field-aware custom mutator; harness rules generated from the module declarations; ASan/UBSan/LSan + in-target oracle",
+        "level_text": ("Five concurrent libFuzzer campaigns (pe+dotnet, elf, macho, dex, generic) start from the repository's "
+                       "fuzz corpora and test samples and mutate them with libFuzzer's mutators plus a structure-aware one "
+                       "(boundary values written into header / table fields found through the format's own offsets, "
+                       "truncations). Every input is scanned with SCAN_FLAGS_NO_TRYCATCH by rules that are generated from "
+                       "the module declaration tree of the tree under test and read every field, iterate every array and "
+                       "dictionary, index at 0 and far beyond, and call every function prototype. Oracle: no ASan/UBSan/"
+                       "LSan report, no assertion, the scan returns success or a documented error within 30 s, and all "
+                       "always-true harness rules are reported."),
+        "level_note": ("Exploration bounded by time; MSan is not usable here, so uninitialised reads are only seen through "
+                       "their ASan-visible consequences; timeouts / OOMs / slow units reported by libFuzzer are counted as "
+                       "inconclusive, only reproducible crash-/leak- artifacts count."),
+        "quick": (0, 60), "thorough": (0, 900),
+        "floor": 20,
+        "fuzz_targets": [
+            {"name": "pe", "env": {"VERIF_FAMILY": "pe"}, "seeds": [
+                "{repo}/tests/oss-fuzz/pe_fuzzer_corpus/*", "{repo}/tests/oss-fuzz/dotnet_fuzzer_corpus/*",
+                "{repo}/tests/data/tiny*", "{repo}/tests/data/pe_*", "{repo}/tests/data/*.dll", "{repo}/tests/data/*.efi",
+                "{repo}/tests/data/weird_rich", "{repo}/tests/data/bad_dotnet_pe", "{repo}/tests/data/0*", "{repo}/tests/data/3*",
+                "{repo}/tests/data/6*", "{repo}/tests/data/7*", "{repo}/tests/data/c*", "{repo}/tests/data/e*"], "max_len": 300000},
+            {"name": "elf", "env": {"VERIF_FAMILY": "elf"}, "seeds": [
+                "{repo}/tests/oss-fuzz/elf_fuzzer_corpus/*", "{repo}/tests/data/elf_with_imports"], "max_len": 100000},
+            {"name": "macho", "env": {"VERIF_FAMILY": "macho"}, "seeds": [
+                "{repo}/tests/oss-fuzz/macho_fuzzer_corpus/*", "{repo}/tests/data/tiny-macho", "{repo}/tests/data/tiny-universal"],
+             "max_len": 100000},
+            {"name": "dex", "env": {"VERIF_FAMILY": "dex"}, "seeds": ["{repo}/tests/oss-fuzz/dex_fuzzer_corpus/*"], "max_len": 100000},
+            {"name": "generic", "env": {"VERIF_FAMILY": "generic"}, "seeds": [
+                "{repo}/tests/data/x.txt", "{repo}/tests/data/tiny", "{repo}/tests/data/tiny-macho",
+                "{repo}/tests/data/elf_with_imports", "{repo}/tests/oss-fuzz/dex_fuzzer_corpus/*"], "max_len": 20000},
+        ],
+        "rule": ("case = one input executed by a campaign (seed corpus = tests/oss-fuzz/*_corpus + tests/data samples). "
+                 "Non-trivial: the module's own validity gate passed (pe.is_pe / dotnet.is_dotnet / elf.type defined / "
+                 "macho magic defined / dex.header.magic defined) AND the first 256 bytes differ from every seed; distinct "
+                 "by hash of the input."),
+        "assumptions": [],
+    },
 }
